@@ -1,0 +1,22 @@
+//go:build verif
+
+package remotecmd
+
+// Exports for the verification harness (build tag "verif" only; add-only).
+
+import (
+	"net/http"
+	"net/url"
+
+	"github.com/sassoftware/relic/v8/cmdline/shared"
+	"github.com/sassoftware/relic/v8/config"
+)
+
+// VerifDoRequest runs the unexported fail-over loop (*client).doRequest with the given HTTP
+// client, server list, advertised encodings and remote.retries setting.
+func VerifDoRequest(hc *http.Client, retries int, bases []string, endpoint, method, encodings string, query *url.Values, body ReaderGetter) (*http.Response, error) {
+	cfg := &config.RemoteConfig{Retries: retries}
+	shared.CurrentConfig = &config.Config{Remote: cfg}
+	cli := &client{config: cfg, cli: hc}
+	return cli.doRequest(bases, endpoint, method, encodings, query, body)
+}
